@@ -407,14 +407,12 @@ func (h *harness) headerReuse(out *gio.DataOutputX, produced []byte, variant int
 		return // the frame calls are C05's subject
 	}
 	h.own.headerReuses++
-	if !bytes.Equal(heldBefore, produced) {
-		key := "DataOutputX.ToByteArray:result-altered-later@" + name
-		if rp.first(key) {
-			c.Fail(key, fmt.Sprintf("the %d bytes ToByteArray() returned before %s are no longer the bytes that were produced (now they start %s, they were %s)",
-				len(produced), name, vlib.Hex(head(heldBefore)), vlib.Hex(head(produced))),
-				detail(map[string]interface{}{"held_now": vlib.Hex(heldBefore), "held_when_returned": vlib.Hex(produced)}))
-		}
-	}
+	// Not judged: what a slice taken BEFORE the frame call holds afterwards. ToByteArray()
+	// hands out a view of the stream's buffer (like bytes.Buffer.Bytes), and the frame calls
+	// are documented to empty the stream and rebuild it around its content; the property only
+	// promises that appending writes produce the right bytes, so asserting more here raised
+	// alarms on correct code (see DESIGN.md §8.3).
+	_ = heldBefore
 	// the framed stream, held while the writer goes on.
 	framed := out.ToByteArray()
 	cp := append([]byte{}, framed...)
